@@ -372,7 +372,7 @@ func checkOnce(t *T, prop func(*T)) (err *testError) {
 	defer func() {
 		// a cleanup function that panics decides the outcome, except that skipping
 		// in a cleanup function does not hide a failure of the test case
-		cleanupErr := panicToError(recover(), 3)
+		cleanupErr := t.cleanup()
 		if cleanupErr != nil && (err == nil || err.isInvalidData() || !cleanupErr.isInvalidData()) {
 			err = cleanupErr
 		}
@@ -382,7 +382,6 @@ func checkOnce(t *T, prop func(*T)) (err *testError) {
 		}
 	}()
 
-	defer t.cleanup()
 	defer func() { err = panicToError(recover(), 3) }() // outcome of prop itself, known before cleanup functions run
 	prop(t)
 	t.failOnError()
@@ -408,6 +407,9 @@ type testError struct {
 func panicToError(p any, skip int) *testError {
 	if p == nil {
 		return nil
+	}
+	if err, ok := p.(*testError); ok {
+		return err // failure of a cleanup function, passed on by a Custom generator
 	}
 
 	// capture the whole stack up to checkOnce: failures that differ only in frames
@@ -661,11 +663,15 @@ func (t *T) Cleanup(f func()) {
 
 // cleanup runs any cleanup tasks associated with the property check.
 // It is safe to call multiple times.
-func (t *T) cleanup() {
+//
+// If a cleanup function panics, the remaining cleanup functions are still run.
+// The result is the outcome of the last cleanup function that panicked,
+// except that skipping in a cleanup function does not hide a failure of another one.
+func (t *T) cleanup() (err *testError) {
 	t.cleaning.Store(true)
 	defer t.cleaning.Store(false)
 
-	// If a cleanup function panics,
+	// If a cleanup function ends the goroutine (runtime.Goexit),
 	// we still want to run the remaining cleanup functions.
 	defer func() {
 		t.mu.Lock()
@@ -673,7 +679,7 @@ func (t *T) cleanup() {
 		t.mu.Unlock()
 
 		if recurse {
-			t.cleanup()
+			_ = t.cleanup()
 		}
 	}()
 
@@ -700,8 +706,21 @@ func (t *T) cleanup() {
 			break
 		}
 
-		cleanup()
+		err1 := runCleanup(cleanup)
+		if err1 != nil && (err == nil || err.isInvalidData() || !err1.isInvalidData()) {
+			err = err1
+		}
 	}
+
+	return err
+}
+
+func runCleanup(cleanup func()) (err *testError) {
+	defer func() { err = panicToError(recover(), 3) }()
+
+	cleanup()
+
+	return nil
 }
 
 func (t *T) Logf(format string, args ...any) {
